@@ -1353,6 +1353,11 @@ def getitem(E, obj, idx):
             return h(E, obj, idx)
     if obj is None:
         E.throw('TypeError', "'NoneType' object is not subscriptable")
+    from . import aio as _aio
+    if isinstance(obj, _aio.QueueView):
+        if isinstance(idx, int) and idx == 0:
+            return _aio.sq_peek(E, obj.q)
+        raise Unsupported('queue view index %r' % (idx,))
     raise Unsupported('subscript of %r' % (obj,))
 
 
